@@ -1517,7 +1517,10 @@ def r111(ctx, repo):
                                "that does not validate its keys",
                                node=n, key=f"{CONF}::Configuration.{name}::"
                                "section-aware dict")
-    if n_sec < 2:
+    # (both routes – update and the convenience __getitem__ – are evaluated
+    # on the interpreted class by r116; here every site that is written out
+    # is classified, a shared helper counts once)
+    if n_sec < 1:
         raise AnalysisError("Configuration: section creation sites lost")
     up = cm["update"]
     calls = [c for c in walk(up) if isinstance(c, ast.Call) and isinstance(
@@ -2602,6 +2605,31 @@ def r116(ctx, repo, setitem, bound_k, mc):
         except ModelRaise as e:
             raise AnalysisError(f"R11.6: Configuration model ({tag}) raises "
                                 f"{e}")
+        # sections created by update() and by the convenience __getitem__
+        # validate their keys unless checks are disabled (R11.1, evaluated)
+        try:
+            probe = make(cfg={"setup": {"channel width": 20.0}},
+                         disable_checks=nochk)
+            got = {"update": probe["setup"], "__getitem__": probe["imaging"],
+                   "__getitem__ (user)": probe["user"]}
+        except ModelRaise as e:
+            raise AnalysisError(f"R11.1: Configuration model ({tag}) raises "
+                                f"{e}")
+        for (route, d), sec in zip(got.items(), ("setup", "imaging", "user")):
+            want = None if nochk else sec
+            have = getattr(d, "section", "<no ConfigurationDict>")
+            ok = isinstance(d, make.SecDict) and have == want
+            ctx.ob("R11.1", ok,
+                   f"{tag}: the [{sec}] section created by {route} is a "
+                   f"ConfigurationDict(section={want!r})" if ok else
+                   f"{tag}: the [{sec}] section created by {route} is "
+                   + (f"a ConfigurationDict(section={have!r}), expected "
+                      f"section={want!r}" if isinstance(d, make.SecDict)
+                      else f"a {type(d).__name__}")
+                   + (": its keys are not validated / converted" if not nochk
+                      else ": foreign files warn on every key"),
+                   node=conf, key=f"{CONF}::Configuration::section created "
+                   f"by {route} ({tag})")
         if not isinstance(new, make.Instance):
             raise AnalysisError("R11.6: Configuration.copy does not return a "
                                 "Configuration the model can follow "
